@@ -217,6 +217,8 @@ def run_op(op, a, form, variant=0, live=None):
     elif op == "from_dict":
         a1, a2 = mk_alph(a[0], form), mk_alph(a[1], form)
         conv = (int, np.int64, np.int32, np.int16)[variant % 4]
+        if conv is np.int16 and not all(-32768 <= x[2] <= 32767 for x in a[2]):
+            conv = np.int64
         d = {(sym_of(x[0], form), sym_of(x[1], form)): conv(x[2]) for x in a[2]}
         keys = set(d)
         oc, M, detail = _outcome(lambda: SubstitutionMatrix(a1, a2, d))
@@ -355,7 +357,7 @@ def case_forms(c):
     for x in a:
         if isinstance(x, dict) and "a1" in x:
             words += x["a1"] + x["a2"]
-    if op in ("from_array", "from_dict", "from_text"):
+    if op in ("from_array", "from_dict", "from_text", "from_db"):
         words += a[0] + a[1]
         if op == "from_dict":
             for t in a[2]:
@@ -610,7 +612,10 @@ def _trace_matrix(rng, item):
     import numpy as np
 
     events = []
-    via = rng.choice(["array", "array", "dict", "text"])
+    # the plan of a trace comes from its index (every class of construction occurs for every seed)
+    k = item.get("index", rng.randrange(48))
+    via = ("array", "dict", "text", "array")[k % 4]
+    flaw = (k // 4) % 6 == 5                  # a construction that must be refused
     form = rng.choice(["letter", "str"] if via == "text" else list(FORMS))
     n1 = rng.randint(1, 7)
     same = rng.random() < 0.5
@@ -622,26 +627,26 @@ def _trace_matrix(rng, item):
     else:
         w2 = _rand_words(rng, rng.randint(1, 7), form)
     symmetric = rng.random() < 0.45
-    if via == "text" and rng.random() < 0.6:          # texts the recorded defect does not touch
+    if via == "text" and (k // 4) % 3 != 2:          # texts the recorded defect does not touch
         w2, symmetric = list(w1), True
     table = _rand_table(rng, len(w1), len(w2), symmetric=symmetric)
     variant = rng.randrange(12)
     if via == "array":
         op, a = "from_array", [w1, w2, table, "int"]
-        if rng.random() < 0.08:
+        if flaw and k % 8 == 0:
             a[3] = "float"
-        elif rng.random() < 0.08:
+        elif flaw:
             a[2] = _rand_table(rng, len(w1) + rng.choice([-1, 1]) if len(w1) > 1 else 2, len(w2))
     elif via == "dict":
         d = [[s, t, table[i][j]] for i, s in enumerate(w1) for j, t in enumerate(w2)]
-        if rng.random() < 0.15:
+        if flaw:
             d.pop(rng.randrange(len(d)))
         if rng.random() < 0.3:
             d.append([["q", "q", "q", "q"], w2[0], 5])
         rng.shuffle(d)
         op, a = "from_dict", [w1, w2, d]
     else:
-        op, a = "from_text", [w1, w2, _rand_text(rng, w1, w2, table)]
+        op, a = "from_text", [w1, w2, _rand_text(rng, w1, w2, table, bad=flaw)]
     res = run_op(op, a, form, variant)
     extra = {"form": form, "variant": variant}
     if op == "from_text":
@@ -727,7 +732,7 @@ def _trace_text(rng, item):
         rows = _rand_words(rng, nr, "str")
         cols = list(rows) if (nr == nc and rng.random() < 0.6) else _rand_words(rng, nc, "str")
         table = _rand_table(rng, nr, nc, symmetric=rng.random() < 0.5)
-        bad = rng.random() < 0.1 and nr > 0
+        bad = (len(events) % 5 == 3) and nr > 0
         chars = _rand_text(rng, rows, cols, table, bad=bad)
         res = run_op("dict_from_str", [chars], "str")
         events.append(_event("dict_from_str", [chars], res, form="str", labels=[rows, cols]))
@@ -736,18 +741,29 @@ def _trace_text(rng, item):
 
 def _trace_mapper(rng, item):
     events = []
-    for _ in range(item["length"]):
-        big = rng.random() < item.get("big", 0.1)
-        form = rng.choice(["int", "tuple"]) if big else rng.choice(FORMS)
-        n = rng.randint(257, 420) if big else rng.randint(1, 12)
-        src = _rand_words(rng, n, form)
-        mode = rng.choice(["shuffle", "shuffle", "extend", "missing", "same"])
-        extra_n = rng.randint(0, 300 if big and rng.random() < 0.5 else 4)
-        pool = _rand_words(rng, n + extra_n + 4, form)
-        extra = [w for w in pool if w not in src][:extra_n]
+    big = item.get("big", False)
+    # big: target alphabets around the uint8 limit of the mapping table, highest code in use
+    plan = [255, 256, 257, 258, rng.randint(300, 460)] if big else [0] * item["length"]
+    for tsize in plan:
+        if big:
+            form = rng.choice(["int", "tuple"])
+            n = rng.randint(257 if tsize >= 257 else 200, tsize)     # source codes beyond 255 too
+            pool = _rand_words(rng, tsize, form)
+            src, extra = pool[:n], pool[n:]
+            mode = "shuffle" if tsize in (256, 257) else rng.choice(["shuffle", "shuffle", "extend", "missing"])
+        else:
+            form = rng.choice(FORMS)
+            n = rng.randint(1, 12)
+            src = _rand_words(rng, n, form)
+            mode = rng.choice(["shuffle", "shuffle", "extend", "missing", "same"])
+            extra_n = rng.randint(0, 4)
+            pool = _rand_words(rng, n + extra_n + 4, form)
+            extra = [w for w in pool if w not in src][:extra_n]
         if mode == "shuffle":
             tgt = src + extra
             rng.shuffle(tgt)
+            k = tgt.index(src[0])           # the highest target code is in use
+            tgt[k], tgt[-1] = tgt[-1], tgt[k]
         elif mode == "extend":
             tgt = src + extra
         elif mode == "same":
@@ -761,9 +777,12 @@ def _trace_mapper(rng, item):
         variant = rng.randrange(12)
         res = run_op("mapper_new", [src, tgt], form, variant)
         events.append(_event("mapper_new", [src, tgt], res, form=form, variant=variant))
-        for _k in range(2):
-            codes = [rng.randrange(len(src)) for _ in range(rng.randint(0, 30))]
-            variant = rng.randrange(12)
+        for _k in range(3 if big else 2):
+            codes = [rng.randrange(len(src)) for _ in range(rng.randint(2 if big else 0, 30))]
+            if big:
+                codes[0] = len(src) - 1
+                codes[-1] = 0
+            variant = (0, 2, 4)[_k] if big else rng.randrange(12)    # big: list, int64 array, uint16 array
             if variant % 5 == 1 and len(src) > 256:
                 variant += 1                      # uint8 code arrays cannot carry these codes
             res = run_op("map_codes", [src, tgt, codes], form, variant)
@@ -866,9 +885,10 @@ def _trace_db(rng, item):
     # constructor by name, with the full documented alphabet or a sub-alphabet of the file's symbols
     name = item["name"]
     chars = _db_chars(name)
-    d = SubstitutionMatrix.dict_from_db(name)
-    rows = sorted({k[0] for k in d})
-    cols = sorted({k[1] for k in d})
+    # choosing a sub-alphabet is input generation: the symbols are taken from the file's header line
+    with open(os.path.join(_db_dir(), name + ".mat")) as f:
+        content = [ln for ln in (x.strip() for x in f.read().split("\n")) if ln and ln[0] != "#"]
+    rows = cols = sorted(content[0].split())
     if item["full"]:
         kind = "nucleotide" if name == "NUC" else "3di" if name == "3Di" else "pb" if name == "PB" else "protein"
         a1 = a2 = _std_alphabet(kind)
@@ -1044,9 +1064,9 @@ def run(ctx):
     prefix = os.path.join(d, "cases")
     ctx.tlc("SubstMatrix", "MC.cfg" if quick else "MC_thorough.cfg", stage="S1", dump=prefix, timeout=1500)
     dump = prefix + ".dump" if os.path.exists(prefix + ".dump") else prefix
-    items, nstates = _split_dump(dump, 300)
+    items, nstates = _split_dump(dump, 500)
     ctx.log(f"S2a: {nstates} dumped states in {len(items)} items")
-    res = helpers.run_pool(ctx, "harness.drivers.x07:exec_cases", items, stage="S2", item_timeout=300)
+    res = helpers.run_pool(ctx, "harness.drivers.x07:exec_cases", items, stage="S2", item_timeout=300, procs=12)
     ops, ocs, forms, ncases, nev, nontriv = {}, {}, {}, 0, 0, 0
     for r in res:
         if not r or "crash" in r:
@@ -1074,9 +1094,9 @@ def run(ctx):
     ctx.cov["s2_real_calls"] = nev
     # ---- S1 + S2b: session histories -------------------------------------------------------
     scfg = "MC_session.cfg" if quick else "MC_session_thorough.cfg"
-    ctx.tlc("MatrixSession", scfg, stage="S1-session", timeout=900)
     dotf = os.path.join(d, "g.dot")
-    ctx.tlc("MatrixSession", scfg, stage="S1-graph", dump_dot=dotf, workers=1, timeout=900, count=False)
+    # one run: invariants / action properties and the state graph (a dot dump needs workers=1)
+    ctx.tlc("MatrixSession", scfg, stage="S1-session", dump_dot=dotf, workers=1, timeout=1500)
     g = dot.load(dotf)
     if not g.edges:
         raise RuntimeError("empty state graph")
@@ -1108,9 +1128,9 @@ def run(ctx):
         json.dump({"states": states, "labels": labels}, f)
     pitems = [{"init": ids[root], "steps": [[lab_ix[lab], ids[dst]] for lab, dst in steps],
                "form": FORMS[k % len(FORMS)]} for k, (root, steps) in enumerate(paths)]
-    batches = [{"paths": b} for b in helpers.chunked(pitems, 200)]
+    batches = [{"paths": b} for b in helpers.chunked(pitems, max(200, (len(pitems) + 7) // 8))]
     pres = helpers.run_pool(ctx, "harness.drivers.x07:exec_paths", batches, stage="S2",
-                            env={"X07_GRAPH": gfile}, item_timeout=300)
+                            env={"X07_GRAPH": gfile}, item_timeout=300, procs=8)
     steps = sum((r or {}).get("steps", 0) for r in pres)
     ctx.log(f"S2b: {len(pitems)} paths covering {covered}/{len(g.edges)} transitions, {steps} real calls")
     ctx.traces_validated += len(pitems)
@@ -1122,7 +1142,8 @@ def run(ctx):
         ctx.sample({"s2_path": [labels[lab_ix[lab]] for lab, _ in stp]})
     # ---- S3: recorded histories --------------------------------------------------------------
     titems = s3_items(ctx)
-    tres = pool.run_isolated("harness.drivers.x07:gen_trace", titems, item_timeout=300)
+    tres = pool.run_isolated("harness.drivers.x07:gen_trace", titems, item_timeout=300,
+                            procs=4 if quick else 16)
     traces, kept = [], []
     for it, r in zip(titems, tres):
         if "driver_error" in r:
@@ -1135,7 +1156,9 @@ def run(ctx):
             traces.append(r["events"])
             kept.append(it)
     ctx.log(f"S3: {len(traces)} traces, {sum(len(t) for t in traces)} events recorded")
-    validate_traces(ctx, traces)
+    # S3b: calls made by the repository's own tests (one more trace of the same TLC run)
+    repo = record_repo_tests(ctx)
+    validate_traces(ctx, traces, repo)
 
     def corrupt(tr):
         for e in tr:
@@ -1167,8 +1190,6 @@ def run(ctx):
         by_kind.setdefault(it["kind"] + ":" + it.get("what", ""), tr)
     sel = [[{k: e[k] for k in _KEEP} for e in t] for t in by_kind.values()]
     helpers.binding_selftest(ctx, sel, corrupt, max_traces=len(sel))
-    # ---- S3b: calls made by the repository's own tests -----------------------------------
-    validate_repo_tests(ctx)
 
 
 def s3_items(ctx):
@@ -1177,12 +1198,13 @@ def s3_items(ctx):
     items = []
 
     def add(kind, n, length, **kw):
-        for _ in range(n):
-            items.append(dict({"seed": rng.randrange(1 << 30), "kind": kind, "length": length}, **kw))
+        for k in range(n):
+            items.append(dict({"seed": rng.randrange(1 << 30), "kind": kind, "length": length, "index": k}, **kw))
 
-    add("matrix", 90 if quick else 1500, 14 if quick else 20)
+    add("matrix", 90 if quick else 1000, 14 if quick else 20)
     add("text", 12 if quick else 150, 8 if quick else 12)
-    add("mapper", 16 if quick else 200, 3 if quick else 4, big=0.12 if quick else 0.2)
+    add("mapper", 14 if quick else 200, 3 if quick else 4)
+    add("mapper", 2 if quick else 24, 5, big=True)
     add("common", 6 if quick else 60, 12 if quick else 20)
     names = sorted(f[:-4] for f in os.listdir(_db_dir_parent()) if f.endswith(".mat"))
     add("db", 1, 0, what="list")
@@ -1205,55 +1227,75 @@ def _db_dir_parent():
     return os.path.join(os.path.dirname(spec.origin), "sequence", "align", "matrix_data")
 
 
-def validate_traces(ctx, traces, stage="S3"):
+def validate_traces(ctx, traces, repo=None):
+    """TLC re-computes every recorded event; `repo` = events recorded from the repository's tests
+    (validated as one more trace of the same run)."""
     from harness.tlabind import helpers
     from harness.tlabind.core import Vacuity
 
     if not traces:
-        raise RuntimeError(f"{stage} produced no traces")
-    mms = helpers.tlc_validate(ctx, traces, keep=_KEEP, timeout=1500, stage=stage)
+        raise RuntimeError("S3 produced no traces")
+    alltr = traces + ([repo] if repo else [])
+    mms = helpers.tlc_validate(ctx, alltr, keep=_KEEP, timeout=1500, stage="S3")
     dom = [v for v in mms if v[3] == ["DOMAIN"]]
     if dom:
-        bad = [[traces[v[1] - 1][v[2] - 1]["op"], json.dumps(traces[v[1] - 1][v[2] - 1]["a"])[:300]]
+        bad = [[alltr[v[1] - 1][v[2] - 1]["op"], json.dumps(alltr[v[1] - 1][v[2] - 1]["a"])[:300]]
                for v in dom[:3]]
-        raise RuntimeError(f"{stage}: recorded calls outside the specification's domain: {bad}")
-    nev = sum(len(t) for t in traces)
-    ctx.traces_validated += len(traces)
+        raise RuntimeError(f"S3: recorded calls outside the specification's domain: {bad}")
+    nev = sum(len(t) for t in alltr)
+    ctx.traces_validated += len(alltr)
     ctx.evaluations += nev
-    per = {}
-    for t in traces:
-        for e in t:
-            k = e["op"] + ":" + e["oc"]
-            per[k] = per.get(k, 0) + 1
-    ctx.cov[f"{stage.lower()}_traces"] = len(traces)
-    ctx.cov[f"{stage.lower()}_events"] = nev
-    ctx.cov[f"{stage.lower()}_events_per_op_outcome"] = per
-    if stage == "S3":
-        need = {"from_array:ok", "from_dict:ok", "from_dict:KeyError", "from_text:ok", "dict_from_str:ok",
-                "get_score:ok", "get_score:Rejected", "get_score_by_code:ok", "table:ok", "is_symmetric:ok",
-                "transpose:ok", "eq:ok", "str:ok", "roundtrip:ok", "as_positional:ok", "mapper_new:ok",
-                "mapper_new:Rejected", "map_codes:ok", "common_alphabet:ok", "from_db:ok", "std:ok",
-                "pb_matrix:ok", "list_db:ok", "poke_obj:Rejected"}
-        if need - set(per):
-            raise Vacuity(f"S3 never recorded: {sorted(need - set(per))}")
-        ctx.nontrivial += sum(1 for t in traces if sum(1 for e in t if e["oc"] == "ok") >= 3)
-        ctx.sample({"s3_events": [{k: (e[k] if k != "a" else json.dumps(e[k])[:200]) for k in _KEEP}
-                                  for e in traces[0][:2]]})
+
+    def per_op(trs):
+        per = {}
+        for t in trs:
+            for e in t:
+                k = e["op"] + ":" + e["oc"]
+                per[k] = per.get(k, 0) + 1
+        return per
+
+    per = per_op(traces)
+    ctx.cov["s3_traces"] = len(traces)
+    ctx.cov["s3_events"] = sum(len(t) for t in traces)
+    ctx.cov["s3_events_per_op_outcome"] = per
+    if repo:
+        ctx.cov["repo_test_events"] = len(repo)
+        ctx.cov["repo_test_events_per_op_outcome"] = per_op([repo])
+    # vacuity guard on the outcomes the SPECIFICATION gives to the recorded calls (the observed
+    # outcome wherever TLC agreed, the expected one of a MISMATCH line otherwise)
+    exp_oc = {(v[1], v[2]): v[4] for v in mms}
+    seen = set()
+    for ti, t in enumerate(traces):
+        for li, e in enumerate(t):
+            seen.add(e["op"] + ":" + exp_oc.get((ti + 1, li + 1), e["oc"]))
+    need = {"from_array:ok", "from_array:Rejected", "from_dict:ok", "from_dict:KeyError", "from_text:ok",
+            "dict_from_str:ok", "dict_from_str:Rejected", "get_score:ok", "get_score:Rejected",
+            "get_score_by_code:ok", "get_score_by_code:Rejected", "table:ok", "is_symmetric:ok",
+            "transpose:ok", "eq:ok", "eq_foreign:ok", "str:ok", "roundtrip:ok", "as_positional:ok",
+            "mapper_new:ok", "mapper_new:Rejected", "map_codes:ok", "common_alphabet:ok", "from_db:ok",
+            "std:ok", "pb_matrix:ok", "list_db:ok", "poke_obj:Rejected"}
+    ctx.nontrivial += sum(1 for t in alltr if sum(1 for e in t if e["oc"] == "ok") >= 3)
+    ctx.sample({"s3_events": [{k: (e[k] if k != "a" else json.dumps(e[k])[:200]) for k in _KEEP}
+                              for e in traces[0][:2]]})
     for v in mms:
         _tag, tid, l, flags, eoc, eout = v
-        e = traces[tid - 1][l - 1]
+        e = alltr[tid - 1][l - 1]
         obs = {"oc": e["oc"], "out": e["out"]}
         if "detail" in e:
             obs["detail"] = e["detail"]
+        stage = "S3-repo-tests" if (repo and tid == len(alltr)) else "S3"
         ctx.mismatch({"stage": stage, "kind": "event", "op": e["op"], "a": e["a"], "form": e.get("form"),
                       "variant": e.get("variant"), "bad": [n for n, ok in zip(("oc", "out"), flags) if not ok],
-                      "expected": {"oc": eoc, "out": eout}, "observed": obs, "trace": tid, "event": l})
+                      "expected": {"oc": eoc, "out": eout}, "observed": obs, "trace": tid, "event": l,
+                      "name": e.get("name")})
+    if need - seen:
+        raise Vacuity(f"S3 never recorded: {sorted(need - seen)}")
     return len(mms)
 
 
-def validate_repo_tests(ctx):
-    """S3b: SubstitutionMatrix / AlphabetMapper / common_alphabet calls made by the repository's
-    own tests, recorded by a pytest plugin installed from outside."""
+def record_repo_tests(ctx):
+    """SubstitutionMatrix / AlphabetMapper / common_alphabet calls made by the repository's own
+    tests, recorded by a pytest plugin installed from outside. Returns the events (or None)."""
     import subprocess
 
     from harness.tlabind import tlc
@@ -1265,38 +1307,65 @@ def validate_repo_tests(ctx):
                X07_RECORD_SCORES=str(60 if ctx.quick else 600), PYTHONHASHSEED="0")
     tests = ["tests/sequence/align/test_matrix.py", "tests/sequence/test_alphabet.py"]
     try:
-        subprocess.run(["/venv/bin/python", "-m", "pytest", "-q", "-x", "-p", "no:cacheprovider", "-p",
+        subprocess.run(["/venv/bin/python", "-m", "pytest", "-q", "-p", "no:cacheprovider", "-p",
                         "harness.recorders.x07_recorder"] + tests,
                        cwd="/repo", env=env, stdout=subprocess.DEVNULL, stderr=subprocess.DEVNULL, timeout=600)
     except subprocess.TimeoutExpired:
         ctx.note("repository-test recorder timed out; stage skipped")
-        return
+        return None
     if not os.path.exists(rec):
         ctx.note("repository-test recorder produced no file (pytest could not start); stage skipped")
-        return
+        return None
     with open(rec) as f:
         data = json.load(f)
-    events = data["events"]
     ctx.cov["repo_test_events_skipped"] = data["skipped"]
-    if not events:
+    if not data["events"]:
         ctx.note("repository tests made no recordable call; stage skipped")
-        return
-    validate_traces(ctx, [events], stage="S3-repo-tests")
+        return None
+    ctx.log(f"S3b: {len(data['events'])} calls recorded from the repository's tests")
+    return data["events"]
 
 
 # --------------------------------------------------------------------------- replay
+def _replay_db(op, a, record, form):
+    """Re-execute an event about the matrix database / the default matrices."""
+    from biotite.sequence.align import SubstitutionMatrix
+
+    if op == "list_db":
+        oc, names, detail = _outcome(SubstitutionMatrix.list_db)
+        return {"oc": oc, "out": sorted(list(n) for n in names) if oc == "ok" else []}
+    if op == "from_db":
+        a1, a2 = mk_alph(a[0], form), mk_alph(a[1], form)
+        oc, M, detail = _outcome(lambda: SubstitutionMatrix(a1, a2, record["name"]))
+    elif op == "std":
+        oc, M, detail = _outcome(getattr(SubstitutionMatrix, _STD[a[3]][1]))
+    else:
+        oc, M, detail = _outcome(lambda: SubstitutionMatrix.std_protein_blocks_matrix(a[3], a[4]))
+    r = {"oc": oc, "out": proj_matrix(M) if oc == "ok" else []}
+    if detail:
+        r["detail"] = detail
+    return r
+
+
 def replay(record):
     """Re-execute one stored mismatch against the real code."""
     kind = record.get("kind")
-    if kind in ("case", "event") and record.get("form") is not None and record["op"] not in (
-            "from_db", "std", "pb_matrix", "list_db", "poke_obj"):
-        a = record["a"]
+    if kind in ("case", "event"):
+        op, a = record["op"], record["a"]
+        form = record.get("form") or case_forms({"op": op, "a": a})[0]
         try:
-            obs = run_op(record["op"], a, record["form"], record.get("variant") or 0)
+            if op in ("from_db", "std", "pb_matrix", "list_db"):
+                if op == "from_db" and not record.get("name"):
+                    return {"error": "the record does not name the database matrix"}
+                obs = _replay_db(op, a, record, form)
+            elif op in ("poke_obj", "poke_src"):
+                return {"error": "events on the cached default matrices are not replayable from abstract arguments"}
+            else:
+                obs = run_op(op, a, form, record.get("variant") or 0)
         except Exception as e:  # noqa: BLE001
             return {"error": f"not replayable from abstract arguments: {type(e).__name__}: {e}"}
-        bad = compare(record["op"], record["expected"], obs)
-        return {"call": [record["op"], json.dumps(a)[:400]], "form": record["form"],
+        bad = compare(op, record["expected"], obs)
+        return {"call": [op, json.dumps(a)[:400]], "form": form,
                 "expected": record["expected"], "observed": obs, "bad": bad, "mismatch": bool(bad)}
     if kind == "step":
         sess = Session(record["init"], record["form"])
